@@ -176,6 +176,53 @@ theorem concurrent_preps_correct (keep : Bool) (evs : List PEv) (outs : List Out
   obtain ⟨h1, h2, h3, h4⟩ := sweep_correct (prepIvs p evs) hsorted hpos
   exact ⟨h1, h2, fun t ht => sweep_samples_every_change _ hsorted hpos t ht, h3, h4⟩
 
+/-- **where the sortedness hypothesis comes from**: when the whole stream reaches the stage
+sorted by `ts` (what `MpSyncTightContext.drain` — `revents.sort(key=ts)` — delivers in the
+registered pipeline), the Prep intervals of every rank are sorted by start. -/
+theorem prepIvs_sorted_of_sorted_stream (evs : List PEv)
+    (hs : evs.Pairwise (fun a b => a.ts ≤ b.ts)) (p : Int) :
+    (prepIvs p evs).Pairwise (fun a b => a.1 ≤ b.1) := by
+  unfold prepIvs
+  rw [List.pairwise_filterMap]
+  refine hs.imp ?_
+  intro a b hab x hx y hy
+  by_cases ha : (isPrepEv a && a.pid == p) = true
+  · by_cases hb : (isPrepEv b && b.pid == p) = true
+    · simp only [ha, hb, if_true, Option.map_eq_some_iff] at hx hy
+      obtain ⟨da, _, rfl⟩ := hx
+      obtain ⟨db, _, rfl⟩ := hy
+      exact hab
+    · simp [hb] at hy
+  · simp [ha] at hx
+
+/-- **C13 for a ts-sorted stream**: `concurrent_preps_correct` with its two hypotheses replaced
+by what the pipeline provides — the stream is sorted by `ts` and Prep slices have positive `dur`. -/
+theorem concurrent_preps_correct_of_sorted_stream (keep : Bool) (evs : List PEv) (outs : List Out)
+    (h : runStage keep evs = .ok outs)
+    (hs : evs.Pairwise (fun a b => a.ts ≤ b.ts))
+    (hd : ∀ ev ∈ evs, isPrepEv ev = true → ∀ d, ev.dur = some d → 0 < d) (p : Int) :
+    (countersOf p outs).Pairwise (fun a b => a.1 < b.1) ∧
+    (∀ t, inFlight (prepIvs p evs) t ≠ inFlightBefore (prepIvs p evs) t →
+        ∃ x ∈ countersOf p outs, x.1 = t) ∧
+    (∀ x ∈ countersOf p outs, x.2 = inFlight (prepIvs p evs) x.1) ∧
+    (prepIvs p evs ≠ [] → ∃ x, (countersOf p outs).getLast? = some x ∧ x.2 = 0) := by
+  have hpos : ∀ iv ∈ prepIvs p evs, iv.1 < iv.2 := by
+    intro iv hiv
+    unfold prepIvs at hiv
+    obtain ⟨ev, hev, hiv⟩ := List.mem_filterMap.mp hiv
+    by_cases ha : (isPrepEv ev && ev.pid == p) = true
+    · simp only [ha, if_true, Option.map_eq_some_iff] at hiv
+      obtain ⟨d, hdur, rfl⟩ := hiv
+      have hprep : isPrepEv ev = true := by
+        simp only [Bool.and_eq_true] at ha; exact ha.1
+      have := hd ev hev hprep d hdur
+      show ev.ts < ev.ts + d
+      grind
+    · simp [ha] at hiv
+  obtain ⟨h1, _, h3, h4, h5⟩ :=
+    concurrent_preps_correct keep evs outs h p (prepIvs_sorted_of_sorted_stream evs hs p) hpos
+  exact ⟨h1, h3, h4, h5⟩
+
 /-! ### non-vacuity and the repaired witnesses -/
 
 /-- the nested family that the unrepaired code got wrong (`0` at `t = 2`): now `1` -/
